@@ -195,6 +195,11 @@ func areaMetricsOs2(c *Ctx) {
 	n := c.N
 	// the whole fsType / fsSelection flag space, exhaustively: PermUse x PermNoSubsetting x
 	// PermOnlyBitmap x (regular | bold/italic combinations) x oblique, other fields varied at random
+	// zero versus absent: the all-zero info (only the vendor id has its mandatory four bytes)
+	zeroArgs := "wc=0 wd=0 bold=0 italic=0 regular=0 oblique=0 first=0 last=0 asc=0 desc=0 wasc=0 wdesc=0 " +
+		"gap=0 cap=0 xh=0 avg=0 sub=0,0,0,0,0,0,0,0,0,0 fam=0 panose=00000000000000000000 vendor=20202020 ur=0,0,0,0 cpr=0 perm=0 nosub=0 bitmap=0"
+	c.Case(Verdict, "metrics.os2enc", zeroArgs, true)
+	c.Case(Direct, "metrics.os2rt", zeroArgs, true)
 	styles := [][3]int{{1, 0, 0}, {0, 0, 0}, {0, 1, 0}, {0, 0, 1}, {0, 1, 1}} // regular, bold, italic
 	for perm := 0; perm < 4; perm++ {
 		for nosub := 0; nosub < 2; nosub++ {
